@@ -16,6 +16,7 @@ mod jsonr;
 mod observe;
 mod props;
 mod rng;
+mod rt;
 mod tables;
 mod truth;
 mod util;
